@@ -133,7 +133,10 @@ def view_write_through(rng, res):
     x[i][j] = 1.5
     res.count('V:view-write-through', key=(i, j), nontrivial=True)
     if float(np.asarray(x.get_val())[i, j]) != 1.5 or np.count_nonzero(np.asarray(x.val)) != 1:
-        res.fail({'i': i, 'j': j}, 'C20: chained indexed assignment x[i][j] = v does not write through to x', expected=1.5, got=np.asarray(x.get_val()).tolist())
+        res.fail({'i': i, 'j': j}, 'C20: chained indexed assignment x[i][j] = v does not write through to x', expected=1.5, got=np.asarray(x.get_val()).tolist()); return
+    # ... and every value view of x shows it (x.real is a view of the values too)
+    if np.asarray(x.real).tolist() != np.asarray(x.get_val()).tolist():
+        res.fail({'i': i, 'j': j}, 'C20: after a write through a view, x.real does not show the values of x (stale)', expected=np.asarray(x.get_val()).tolist(), got=np.asarray(x.real).tolist())
 
 def deep_same(a, b):
     """same types and same contents, recursively (lists / tuples / ndarrays / scalars)"""
